@@ -127,8 +127,8 @@ def parse_mem_output(text):
             cur = None
         elif l.startswith("A "):
             a = l.split(" ")
-            if len(a) == 3:
-                cur.sites.append((int(a[1]), a[2].split(",")))
+            if len(a) == 4:
+                cur.sites.append((int(a[1]), a[2].split(","), int(a[3])))
     return res
 
 
@@ -245,38 +245,43 @@ def describe(frames):
 
 
 def attribute(case, o, kind, sym, parser_y):
-    """Stable keys for a failing trace, one per distinct allocation function among the leaked blocks
-    (or the function performing the bad free): [(key, [frame descriptions])]."""
+    """Stable key for a failing trace.  Leak: the block acquired LAST among the leaked ones is taken as
+    the root of the leaked structure (the parser builds bottom-up); it is named by the grammar
+    nonterminal whose action allocated it when a yyparse frame is on its stack, else by the
+    allocating function.  Reject: the function performing the bad free.  -> (key, [descriptions])"""
     oc = outcome_class(o)
     if not o.sites:
-        return [("%s:%s:unattributed" % (kind, oc), [])]
+        return "%s:%s:unattributed" % (kind, oc), []
     if kind != "leak":
-        blk, addrs = o.sites[-1]              # where the rejected free/realloc happened
+        blk, addrs, _ = o.sites[-1]              # where the rejected free/realloc happened
         frames = sym.resolve(addrs)
         desc = ["freed in " + " <- ".join(describe(frames)[:4])]
         if len(o.sites) > 1:
             desc.append("allocated in " + " <- ".join(describe(sym.resolve(o.sites[0][1]))[:4]))
         m = re.match(r"reject pos=\d+ (\S+)", o.monitor or "")
-        return [("%s:%s:%s" % (m.group(1) if m else kind, oc, frames[0][0]), desc)]
-    out, seen = [], set()
-    for blk, addrs in o.sites:
-        frames = sym.resolve(addrs)
-        fn = frames[0][0]
-        extra = ""
-        for f, l in frames[1:]:
-            src, line = short_loc(l)
-            if f == "yyparse" and src.endswith("parser.y"):
-                nt = nonterminal_at(parser_y, line)
-                if nt:
-                    extra = ":" + nt
-                break
-        key = "leak:%s:%s%s" % (oc, fn, extra)
-        if key not in seen:
-            seen.add(key)
-            out.append((key, describe(frames)))
-        if len(out) >= 6:
+        return "%s:%s:%s" % (m.group(1) if m else kind, oc, frames[0][0]), desc
+    blk, addrs, _ = max(o.sites, key=lambda s: s[2])
+    frames = sym.resolve(addrs)
+    fn = frames[0][0]
+    name = fn
+    for f, l in frames[1:]:
+        src, line = short_loc(l)
+        if f == "yyparse" and src.endswith("parser.y"):
+            nt = nonterminal_at(parser_y, line)
+            if nt:
+                name = "nonterminal:" + nt
             break
-    return out
+    if fn.startswith("string_") and any(f == "lex_scan" for f, _ in frames[1:3]):
+        name = "scanner-string-buffer"
+    elif fn == "lex_scan":
+        name = "scanner-token-text"
+    fns = []
+    for b2, a2, _ in sorted(o.sites, key=lambda s: -s[2])[:40]:
+        f2 = sym.resolve(a2[:1])[0][0]
+        if f2 not in fns:
+            fns.append(f2)
+    desc = ["root block %d: " % blk + " <- ".join(describe(frames)[:5]), "allocating functions of leaked blocks: " + ", ".join(fns[:12])]
+    return "leak:%s:%s" % (oc, name), desc
 
 
 # ---------------------------------------------------------------------------------------------
@@ -491,8 +496,8 @@ def _run(ctx, drv, mon, workdir, t0):
         for c, o, k in failing:
             o2 = obs2.get(c.id)
             use = o2 if (o2 is not None and judge(c, o2)[0] == k) else o
-            for key, desc in attribute(c, use, k, sym, parser_y):
-                findings.setdefault(key, []).append((c, use, k, desc))
+            key, desc = attribute(c, use, k, sym, parser_y)
+            findings.setdefault(key, []).append((c, use, k, desc))
     known = set(k.get("key") for k in ctx.known if k.get("status", "known") == "known")
     shrink_budget = 30 if thorough else 10
     for key in sorted(findings):
@@ -509,12 +514,12 @@ def _run(ctx, drv, mon, workdir, t0):
                 for cc in cs:
                     oo = ob.get(cc.id)
                     kk, _ = judge(cc, oo)
-                    out.append(kk == k and key in [x[0] for x in attribute(cc, oo, kk, sym, parser_y)])
+                    out.append(kk == k and attribute(cc, oo, kk, sym, parser_y)[0] == key)
                 return out
             data, tested = c05.ddmin(c.data, test, budget_rounds=14 if thorough else 9)
         what = {"leak": "blocks allocated by libnev code are still allocated after program_delete/vm_delete returned",
                 "reject": "the allocation trace is not executable (double free / free of unknown block / realloc of dead block)"}[k]
-        ctx.violation(key, "%s: %s; site: %s" % (what, o.monitor, " <- ".join(desc[:4]) if desc else "unknown"),
+        ctx.violation(key, "%s: %s; site: %s" % (what, o.monitor, (desc[0] if desc else "unknown")),
                       {"case": {"id": c.id, "class": c.cls, "meta": c.meta, "found_in_cases": len(lst), "shrink_runs": tested,
                                 "original_length": len(c.data), "outcome": o.outcome, "phases": o.phases},
                        "input": c05.show_input(data), "class": c.cls, "opts": c.opts,
